@@ -117,6 +117,8 @@ def gen(ctx, rng):
         nd = -3000.0
         cube[rng.random(cube.shape) < 0.08] = nd
         a = dict(op="whitswcv", cube=cube.tolist(), nodata=nd, order=[("time", "y", "x"), ("y", "x", "time")][k % 2], name=[None, "evi"][k % 2])
+        # a nodata attribute on the array that differs from the argument: the argument is what marks the missing cells
+        a["attr_nodata"] = [-9999, None, 0, None][k % 4]
         if k % 2:
             a["p"] = 0.85
         if k >= 2:
